@@ -297,15 +297,21 @@ func srvcorr(args []string) {
 	// IAT, unknown codes and odd spellings, singly and in random sequences
 	allSecs := append(append([]string{}, gen.AllSECs()...), ach.IAT, ach.ADV, "ZZZ", "", "adv", "ADV ", "PPD ")
 	kcase := func(ks []string) {
-		f := ach.NewFile()
+		f := newBatchFile(ks)
 		hs := make([]string, len(ks))
 		for i, sec := range ks {
 			hs[i] = hx.Enc(sec)
-			bh := ach.NewBatchHeader()
-			bh.StandardEntryClassCode = sec
-			bh.BatchNumber = i + 1
-			if b, err := ach.NewBatch(bh); err == nil {
-				f.AddBatch(b)
+		}
+		// oracle: what the constructors build needs no fix-up by IsADV, an ADV batch aside (known finding)
+		if !prefixInv(f) {
+			if cause := prefixInvCause(f); cause != "adv-batch-control-nil" {
+				key := "condition:api:" + cause
+				perKey[key]++
+				if perKey[key] <= 3 {
+					tc := testCase{File: fileCase{Kind: "newbatch", Name: strings.Join(ks, ",")}, Ops: []opCase{{Op: "validateWith", Opts: allowMissing}}}
+					b, _ := json.Marshal(failure{Kind: "fail", Key: key, What: "NewBatch + AddBatch for SEC codes " + strings.Join(ks, ",") + " leaves a batch with " + cause, Case: tc})
+					res.Printf("%s\n", b)
+				}
 			}
 		}
 		cases.Printf("K %s\n", strings.Join(hs, ","))
@@ -332,4 +338,18 @@ func srvcorr(args []string) {
 	impl.Close()
 	res.Close()
 	fmt.Printf("{\"cases\":%d,\"requests\":%d}\n", len(distinct), requests)
+}
+
+// newBatchFile: NewFile, then AddBatch(NewBatch(bh)) for a header carrying each SEC code (a failed NewBatch adds nothing).
+func newBatchFile(secs []string) *ach.File {
+	f := ach.NewFile()
+	for i, sec := range secs {
+		bh := ach.NewBatchHeader()
+		bh.StandardEntryClassCode = sec
+		bh.BatchNumber = i + 1
+		if b, err := ach.NewBatch(bh); err == nil {
+			f.AddBatch(b)
+		}
+	}
+	return f
 }
